@@ -52,12 +52,13 @@ LEVEL_NOTE = ("Trusted: kernel, extraction, harness; Go runtime sampled. Outside
 
 def plan(tier, seed):
     if tier == "quick":
-        return [("C06", seed, 200, []), ("C06order", seed, 80, [])]
-    return [("C06", seed + k, 1500, []) for k in range(4)] + [("C06order", seed + k, 600, []) for k in range(4)]
+        return [("C06", seed, 200, []), ("C06order", seed, 80, []), ("C06imp", seed, 110, [])]
+    return [("C06", seed + k, 1500, []) for k in range(4)] + [("C06order", seed + k, 600, []) for k in range(4)] + \
+        [("C06imp", seed + k, 1100, []) for k in range(4)]
 
 
 def search_plan(seed):
-    return [("C06", seed + 100, 400, []), ("C06order", seed + 100, 200, [])]
+    return [("C06", seed + 100, 400, []), ("C06order", seed + 100, 200, []), ("C06imp", seed + 100, 330, [])]
 
 
 def compare(c):
